@@ -11,7 +11,12 @@
 // (GLeafV0[P] -> GLeafV1[P], GWrapV0[P] -> GWrapV1[P]) are instantiated with
 // a built-in type argument, a named type of this package and a pointer to
 // it: their reflected names contain brackets and, for the last two, an
-// import path.
+// import path. The proto-native leaf lineage (PNativeV0 -> PNativeV1 ->
+// PNativeV2, PNativeAlt; types_proto.go) is a leaf type that is itself a
+// protobuf message and travels as its own payload, without any registered
+// encoder or decoder; only receivers at its newest name are explored (the
+// protobuf type registry is global to the OS process: see the LIMITATION
+// paragraph in types_proto.go).
 //
 // Every type has a field Code that Error() does not show: it only crosses
 // the wire in the payload of a custom encoder.
@@ -250,6 +255,9 @@ type version struct {
 	newLeaf    func(msg, code string) error
 	newWrap    func(msg, code string, cause error) error
 	newMulti   func(msg, code string, causes []error) error
+	// protoNative: the leaf type is itself a proto.Message; it has no leaf
+	// encoder and no leaf decoder (types_proto.go).
+	protoNative bool
 }
 
 func (v *version) leafType() reflect.Type  { return reflect.TypeOf(v.leafProto) }
@@ -347,6 +355,9 @@ type lineage struct {
 	chain []*version
 	alt   *version // nil: no differently renamed version
 	kinds []string
+	// protoNative: the proto-native leaf lineage (types_proto.go); only
+	// processes at the newest name are receivers.
+	protoNative bool
 }
 
 func (l *lineage) maxN() int { return len(l.chain) - 1 }
@@ -370,6 +381,7 @@ var (
 		{name: "generic-int", chain: genericChain[int](), kinds: genericKinds},
 		{name: "generic-named", chain: genericChain[Payload](), kinds: genericKinds},
 		{name: "generic-pointer", chain: genericChain[*Payload](), kinds: genericKinds},
+		protoNativeLineage,
 	}
 )
 
